@@ -1059,6 +1059,40 @@ int32_t jls_core_rd_fsr_data0(struct jls_core_s * self, uint16_t signal_id, int6
     return 0;
 }
 
+// Copy nbits bits between LSB-first bit streams (sample k of a sub-byte
+// type starts at bit k * entry_size_bits).  The bits of dst below dst_bit
+// are kept; nothing beyond byte (dst_bit + nbits + 7) / 8 is written.
+static void bits_copy(uint8_t * dst, size_t dst_bit, const uint8_t * src, size_t src_bit, size_t nbits) {
+    dst += dst_bit / 8;
+    dst_bit %= 8;
+    src += src_bit / 8;
+    src_bit %= 8;
+    if ((0 == dst_bit) && (0 == src_bit)) {
+        memcpy(dst, src, (nbits + 7) / 8);
+        return;
+    }
+    while (nbits) {
+        size_t n = 8 - ((dst_bit > src_bit) ? dst_bit : src_bit);
+        if (n > nbits) {
+            n = nbits;
+        }
+        uint8_t v = (uint8_t) ((*src >> src_bit) & ((1U << n) - 1U));
+        uint8_t keep = (uint8_t) ((1U << dst_bit) - 1U);
+        *dst = (uint8_t) ((*dst & keep) | (v << dst_bit));
+        dst_bit += n;
+        src_bit += n;
+        nbits -= n;
+        if (dst_bit >= 8) {
+            dst_bit = 0;
+            ++dst;
+        }
+        if (src_bit >= 8) {
+            src_bit = 0;
+            ++src;
+        }
+    }
+}
+
 int32_t jls_core_fsr(struct jls_core_s * self, uint16_t signal_id, int64_t start_sample_id,
                      void * data, int64_t data_length) {
     // start_sample_id is API zero-based
@@ -1093,8 +1127,7 @@ int32_t jls_core_fsr(struct jls_core_s * self, uint16_t signal_id, int64_t start
     int64_t chunk_sample_id;
     int64_t chunk_sample_count;
     uint8_t * u8;
-    uint8_t shift_bits = 0;
-    uint8_t shift_carry = 0;
+    size_t dst_bit = 0;
 
     while (data_length > 0) {
         ROE(jls_core_rd_fsr_data0(self, signal_id, start_sample_id));
@@ -1108,48 +1141,23 @@ int32_t jls_core_fsr(struct jls_core_s * self, uint16_t signal_id, int64_t start
             return JLS_ERROR_UNSPECIFIED;
         }
 
-        int64_t sz_samples = chunk_sample_count;
+        int64_t idx_start = 0;
         if (start_sample_id > chunk_sample_id) {
             // should only happen on first chunk
-            int64_t idx_start = start_sample_id - chunk_sample_id;
-            sz_samples = chunk_sample_count - idx_start;
-            u8 += ((idx_start * entry_size_bits) / 8);
-            switch (entry_size_bits) {
-                case 1: shift_bits = (uint8_t) (start_sample_id & 0x07); break;
-                case 4: shift_bits = (uint8_t) ((start_sample_id & 0x01) * 4); break;
-                default: break;
-            }
-            if (shift_bits) {
-                shift_carry = (*u8++) >> shift_bits;
-                uint8_t rem_bits = (uint8_t) ((start_sample_id + data_length - 1) & 0x07) + 1;
-                if ((1 == entry_size_bits) && ((8 - shift_bits + rem_bits) > 8)) {
-                    // write out carry on buffer wrap when carry + end bits exceed a byte
-                    if (data_length > sz_samples) {
-                        data_length += 8;
-                    }
-                } else if ((4 == entry_size_bits) && (sz_samples == 1)) {
-                    data_length -= sz_samples;
-                    start_sample_id += sz_samples;
-                    continue;
-                }
-            }
+            idx_start = start_sample_id - chunk_sample_id;
         }
-
+        int64_t sz_samples = chunk_sample_count - idx_start;
         if (sz_samples > data_length) {
             sz_samples = data_length;
         }
-
-        size_t sz_bytes = (size_t) (sz_samples * entry_size_bits + 7) / 8;
-        if (shift_bits) {
-            for (size_t i = 0; i < sz_bytes; ++i) {
-                data_u8[i] = (u8[i] << (8 - shift_bits)) | shift_carry;
-                shift_carry = u8[i] >> shift_bits;
-            }
-            sz_bytes = (sz_samples * entry_size_bits) / 8;
-        } else {
-            memcpy(data_u8, u8, sz_bytes);
+        if (sz_samples <= 0) {
+            JLS_LOGE("fsr data chunk does not contain the sample");
+            return JLS_ERROR_IO;
         }
-        data_u8 += sz_bytes;
+
+        size_t sz_bits = ((size_t) sz_samples) * entry_size_bits;
+        bits_copy(data_u8, dst_bit, u8, ((size_t) idx_start) * entry_size_bits, sz_bits);
+        dst_bit += sz_bits;
         data_length -= sz_samples;
         start_sample_id += sz_samples;
     }
